@@ -357,8 +357,22 @@ fn gen_original_map(t: &mut Tape, src: &str) -> (Map, Value) {
 
 const REF_KINDS: &[&str] = &[
     "inline", "external-relative", "external-absolute", "missing", "unreadable", "invalid-base64", "invalid-json", "index-map", "legacy-at", "block-comment", "none", "two-comments", "lookalike-string",
-    "lookalike-regex", "lookalike-template", "inline-charset",
+    "lookalike-regex", "lookalike-template", "inline-charset", "inline-percent", "inline-plain",
 ];
+
+/// percent-encoding of a data URL payload: everything but unreserved characters (`full`), or only what must be
+fn percent_encode(text: &str, full: bool) -> String {
+    let mut out = String::new();
+    for b in text.bytes() {
+        let keep = if full { b.is_ascii_alphanumeric() || b"-._~".contains(&b) } else { b.is_ascii_graphic() && b != b'%' };
+        if keep {
+            out.push(b as char);
+        } else {
+            out.push_str(&format!("%{:02X}", b));
+        }
+    }
+    out
+}
 
 pub struct C10;
 
@@ -407,6 +421,15 @@ impl Check for C10 {
             "inline-charset" => {
                 usable = true;
                 format!("//# sourceMappingURL=data:application/json;charset=utf-8;base64,{b64}")
+            }
+            // inline maps that are not base64 encoded (what sass and some bundlers emit)
+            "inline-percent" => {
+                usable = true;
+                format!("//# sourceMappingURL=data:application/json;charset=utf-8,{}", percent_encode(&orig_text, true))
+            }
+            "inline-plain" => {
+                usable = true;
+                format!("//# sourceMappingURL=data:application/json,{}", percent_encode(&orig_text, false))
             }
             "external-relative" => {
                 usable = true;
